@@ -2,7 +2,7 @@
 //! functions type-check only if the auto traits hold for EVERY payload type T.
 #![cfg_attr(feature = "freeze", feature(freeze))]
 #![cfg_attr(not(feature = "std"), no_std)]
-#![allow(deprecated)]
+#![allow(deprecated, unused_imports)]
 
 use indextree::{
     Ancestors, Arena, Children, Descendants, FollowingSiblings, Node, NodeEdge, NodeError, NodeId, PrecedingSiblings, Predecessors,
@@ -30,28 +30,6 @@ pub fn sync_whenever_t_is<T: Sync>() {
 pub fn plain_types() {
     is_send::<NodeId>();
     is_sync::<NodeId>();
-    is_send::<NodeEdge>();
-    is_sync::<NodeEdge>();
-    is_send::<NodeError>();
-    is_sync::<NodeError>();
-}
-
-/// iterators hold only &Arena and ids: they can be sent to / shared with other threads when T: Sync
-pub fn iterators<'a, T: Sync + 'a>() {
-    is_send::<Ancestors<'a, T>>();
-    is_send::<Predecessors<'a, T>>();
-    is_send::<PrecedingSiblings<'a, T>>();
-    is_send::<FollowingSiblings<'a, T>>();
-    is_send::<Children<'a, T>>();
-    is_send::<ReverseChildren<'a, T>>();
-    is_send::<Descendants<'a, T>>();
-    is_send::<Traverse<'a, T>>();
-    is_send::<ReverseTraverse<'a, T>>();
-    is_sync::<Ancestors<'a, T>>();
-    is_sync::<Children<'a, T>>();
-    is_sync::<Descendants<'a, T>>();
-    is_sync::<Traverse<'a, T>>();
-    is_sync::<ReverseTraverse<'a, T>>();
 }
 
 #[cfg(feature = "freeze")]
